@@ -629,7 +629,6 @@ func genSyncBoundary(r *Rand) Input {
 	}
 	h.Period = uint64([]int{5, 6, 8, 8, 8, 10}[r.Intn(6)])
 	h.HaveAgg = true
-	g.tag("sync-boundary")
 	P := h.Period
 	pn := uint64(r.Range(1, 3)) // the period the process starts in
 	boundary := (pn + 1) * P    // first epoch of the next period
